@@ -58,6 +58,9 @@ pub fn note_written(b: &[u8]) {
 /// "ab\u{e9}": every prefix of length 0, 1, 2, 4 is valid UTF-8. One source object on purpose: CBMC 6.11 mis-models
 /// memcpy from a pointer that may point to one of several string literals of different sizes (bytes after the first read 0xFF).
 pub static MULTIBYTE: [u8; 4] = [0x61, 0x62, 0xC3, 0xA9];
+/// UTF-16 code units / u32 values for borrowed callback arguments (single source objects, as above)
+pub static WIDE: [u16; 4] = [0x0068, 0xD83D, 0xDE00, 0x0021];
+pub static QUADS: [u32; 4] = [7, 0xFFFF_FFFE, 0x8000_0000, 3];
 
 pub const NSEED: usize = 48;
 pub static mut SEED: [u64; NSEED] = [0; NSEED];
